@@ -156,7 +156,11 @@ class Harness:
         distinct_nontrivial = 0
         for i, (src, inp) in enumerate(inputs):
             try:
-                r = run_case(inp)
+                if isinstance(inp, dict) and "witness" in inp and len(inp) == 1:
+                    still, msg = (witnesses or {})[inp["witness"]]()
+                    r = dict(chk=None, oracle_ok=not still, oracle_msg=msg, kind="witness")
+                else:
+                    r = run_case(inp)
             except Exception as e:  # harness-level failure: reported like an oracle failure
                 r = dict(chk=None, oracle_ok=False,
                          oracle_msg="harness exception: " + "".join(traceback.format_exception_only(type(e), e)).strip()
